@@ -216,13 +216,16 @@ CLAIMED = {
              'codewords forming RS codewords (C06); C02_padding / C02_padding_form / C02_randomised_pad -- what the mode encoders wrote is never '
              'truncated and is followed, if capacity remains, by [254 unless in ASCII], 129 and pads randomised by the 253-state algorithm at their '
              'positions, to exactly the capacity; C02_header -- 232, 236/237, 241+designator come first in this order; C02_ascii_plan_conformant / C02_ascii_only_conformant -- under the plan "stay in ASCII" (the only possible plan when only ASCII is enabled), and C02_base256_only_conformant for the Base256-only configuration, the whole stream is the rendering of a legal script of Spec/Stream16022.v. PARTIAL: that the part between '
-             'header and padding is a legal mode stream decoding to the input is NOT a theorem (it needs the stream grammar for all six encoders); it '
-             'is decided per case by tools/props/refdec.py, an independent decoder written from ISO/IEC 16022 5.2 (mode tracking, shift sets, '
-             'Base256 field, end-of-symbol rules, pad check), run on the implementation\'s streams for structured inputs x lists x mode subsets x '
-             'macro/FNC1/ECI, with the model tied to the implementation on the same cases.',
+             'header and padding is a legal mode stream decoding to the input is, for EVERY input, a theorem only for those two configurations. For '
+             'the other plans it is decided per output by a certificate whose check is proved sound in Coq (C02_certificate_sound: accepted => '
+             'the stream is the rendering of a legal script of Spec/Stream16022.v spelling exactly the input bytes, and the model decoder '
+             'returns them; nothing is assumed about the recogniser that guesses the script). The extracted check runs on every stream the '
+             'implementation produces (5000+ per quick run, none rejected on the current tree); streams with an ECI designator, which lie outside the '
+             'script language, are judged by tools/props/refdec.py, an independent decoder written from ISO/IEC 16022 5.2, which also '
+             're-judges all other streams.',
         design_ref='DESIGN.md 6/C02',
         note='Trusted: Coq kernel, translator, extraction, harness, sort-trace hook; refdec.py as independent reading of the standard. No axioms.',
-        technique='Coq proof: symbol membership, exact lengths, padding form and header order for all inputs; reference-decoder oracle per case for the mode stream'),
+        technique='Coq proof: symbol membership, exact lengths, padding form and header order for all inputs; conformance of the mode stream: theorem for two configurations, sound Coq-checked certificate per output otherwise'),
     'C17': dict(
         category='translation_validation',
         text='Theorems (Coq, axiom-free): C17_graph_is_boundary -- for every bitmap the outline graph has an edge exactly between modules of '
